@@ -23,6 +23,7 @@ type Meta struct {
 	Clears     string   `json:"clears_key_contains"` // mutant that must make a finding disappear
 	Needs      string   `json:"needs"`
 	Tier       string   `json:"tier"` // "thorough" if the mutant only shows in a configuration of the thorough tier
+	Retired    string   `json:"retired"` // why a stored change no longer breaks the property (it is skipped)
 }
 
 type mutant struct {
@@ -48,7 +49,7 @@ func collect(prop string) []mutant {
 				ok = true
 			}
 		}
-		if !ok {
+		if !ok || m.Retired != "" {
 			return
 		}
 		out = append(out, mutant{name: name, patch: patch, meta: m})
